@@ -20,7 +20,7 @@ def plan(tier):
 
 def strategy(tier):
     return st.one_of(machine_spec("general", tier), machine_spec("multi_pool", tier), machine_spec("oom", tier),
-                     machine_spec("suspend", tier), machine_spec("twins", tier))
+                     machine_spec("suspend", tier), machine_spec("twins", tier), machine_spec("branches", tier))
 
 
 run_case = make_run_case({"C09"}, lambda o: {"had_failure", "had_success", "suspension_finished"} <= set(o.labels)
